@@ -39,6 +39,9 @@ type verifChunkReader struct {
 	ci     int
 	err    error
 	drawn  int
+	// the Read that delivers the last bytes reports the end of the stream in the same call (n > 0 together with an
+	// error: legal for an io.Reader)
+	endWithData bool
 }
 
 func (r *verifChunkReader) Read(p []byte) (int, error) {
@@ -61,6 +64,12 @@ func (r *verifChunkReader) Read(p []byte) (int, error) {
 	copy(p, r.data[r.pos:r.pos+n])
 	r.pos += n
 	r.drawn += n
+	if r.endWithData && r.pos >= len(r.data) {
+		if r.err != nil {
+			return n, r.err
+		}
+		return n, io.EOF
+	}
 	return n, nil
 }
 
